@@ -266,6 +266,8 @@ func c12Universe() []GM {
 	// just woken next to a parked one)
 	add(func(g *GM) { g.State = "chan receive" })
 	add(func(g *GM) { g.State = "chan receive (nil chan)" })
+	// the garbage collector is scanning the goroutine's stack: the runtime appends " (scan)"
+	add(func(g *GM) { g.State = "select (scan)" })
 	// started by the same go statement from different parents (go >= 1.21 prints the parent)
 	for _, parent := range []int{5, 7} {
 		add(func(g *GM) { c := *g.Creator; c.Parent = parent; g.Creator = &c })
